@@ -24,7 +24,7 @@ import numpy as np
 import scipy.sparse
 
 from ..common import Violation, Probes, HarnessError
-from ..sched import Scheduler, StepCapExceeded
+from ..sched import Scheduler, StepCapExceeded, python_methods_of
 from ..daskseam import SimGet
 
 _st = {}
@@ -97,6 +97,7 @@ def setup(ctx):
             rec["tasks"].append({"n_docs": len(token_sequences), "events": ev, "result": r})
             return r
 
+        wrapped.__wrapped__ = orig
         cls._build_coo = wrapped
 
         origc = cls.__dict__.get("_generate_chunk_boundaries")
@@ -107,6 +108,7 @@ def setup(ctx):
                 if rec is not None and getattr(self, "_dsim_role", None) == "test":
                     rec["chunks"].append((len(data), list(r)))
                 return r
+            wrappedc.__wrapped__ = origc
             cls._generate_chunk_boundaries = wrappedc
 
     if ctx.interp:
@@ -454,7 +456,9 @@ def run(tape, ctx):
         cu.COO_QUICKSORT_LIMIT = spec["limit"]
         _st["probes"].clear()
     sched = Scheduler(tape, ctx.trace_roots, step_cap=getattr(ctx, "cfg", {}).get("params", {}).get("step_cap", 3_000_000))
-    simget = SimGet(sched, tape)
+    # python-level methods of the estimator class (whatever they are on the tree under test) are pre-empted at
+    # instruction granularity; kernels (interp mode) at line granularity
+    simget = SimGet(sched, tape, instr_codes=python_methods_of(_st["classes"][kind], ctx.trace_roots))
     rec = {"tasks": [], "chunks": []}
     _st["rec"] = rec
     try:
